@@ -575,6 +575,70 @@ func ruleMrg3(c *Ctx) []*Ob {
 
 func ruleEnc5(c *Ctx) []*Ob {
 	o := newObs(c, "ENC-5")
+	// presence is carried by operations, not by bytes: persistSegments may skip a segment of the incoming
+	// stack only when it has no operations (Len() <= 0) - a segment that only sets or deletes the empty key has
+	// operations but no key/value bytes
+	ps := c.Fn("(*Store).persistSegments")
+	persistSeg := c.Fn("(*Store).persistSegment")
+	fAfield := c.Field("segmentStack", "a")
+	var loop map[*ssa.BasicBlock]bool
+	var head *ssa.BasicBlock
+	for _, k := range callsToFn(ps, persistSeg) {
+		if scc := sccOf(ps, k.Block()); scc != nil {
+			loop = scc
+		}
+	}
+	if loop == nil {
+		o.add(c.fname(ps), "segments skipped only when Len() <= 0", c.pos(ps.Pos()), false, "anchor lost: persistSegments no longer persists the stack's segments in a loop")
+	} else {
+		for b := range loopHeaders(loop) {
+			head = b
+		}
+		lenEdge := func(from, to *ssa.BasicBlock, cond ssa.Value, onTrue bool) bool {
+			b, ok := cond.(*ssa.BinOp)
+			if !ok {
+				return false
+			}
+			call, ok := b.X.(*ssa.Call)
+			if !ok || !call.Call.IsInvoke() || call.Call.Method.Name() != "Len" {
+				return false
+			}
+			n, isInt := constInt(b.Y)
+			if !isInt {
+				return false
+			}
+			switch {
+			case b.Op == token.LEQ && n == 0, b.Op == token.LSS && n == 1, b.Op == token.EQL && n == 0:
+				return onTrue
+			case b.Op == token.GTR && n == 0, b.Op == token.GEQ && n == 1, b.Op == token.NEQ && n == 0:
+				return !onTrue
+			}
+			return false
+		}
+		skipped := false
+		// from the loop header around the loop without persistSegment and without the Len()<=0 edge
+		start := point{head, 0}
+		walk(start, walkOpts{noInline: true,
+			visit: func(i ssa.Instruction, t *tracker) bool {
+				return isCallOf(i, persistSeg)
+			},
+			edge: func(from, to *ssa.BasicBlock, label string, cond ssa.Value, onTrue bool, t *tracker) bool {
+				if !loop[to] || lenEdge(from, to, cond, onTrue) {
+					return true
+				}
+				if to == head && loop[from] {
+					skipped = true // back at the loop header without having persisted the segment
+					return true
+				}
+				return false
+			}})
+		_ = fAfield
+		why := "an iteration leaves out a segment only on the `Len() <= 0` edge"
+		if skipped {
+			why = "a segment of the incoming stack can be left out of the file on a condition other than `Len() <= 0` (e.g. 'no key/value bytes'): a segment that only sets or deletes the empty key has operations but no bytes, so it would be dropped as if persisted"
+		}
+		o.add(c.fname(ps), "segments skipped only when Len() <= 0", c.pos(ps.Pos()), !skipped, why)
+	}
 	fBuf := c.Field("segment", "buf")
 	for _, f := range c.Funcs {
 		fn := c.fname(f)
